@@ -297,7 +297,7 @@ var (
 		"cancel+slice", "cancel+slice",
 		"cancel+nil",
 	}
-	c03Subsets = []string{"all", "all", "all", "allButOne", "allButOne", "mask", "mask", "mask", "onlyOne", "none"}
+	c03Subsets = []string{"all", "all", "allButOne", "allButOne", "mask", "mask", "mask", "onlyOne", "none"}
 )
 
 func c03GenOutcome(t *rapid.T, label string) c03Outcome {
@@ -488,8 +488,17 @@ func (m *c03Machine) stable(mustReturn *c03Call) bool {
 	return true
 }
 
-func (m *c03Machine) settle(t *rapid.T, mustReturn *c03Call) {
-	timer := time.NewTimer(c03Hang)
+func (m *c03Machine) settle(t *rapid.T, mustReturn *c03Call) { m.settleWithin(t, mustReturn, 0) }
+
+// settleWithin is settle with an optional soft bound: when soft > 0 and mustReturn has not
+// returned within it, false is returned instead of a failure (used where the property does not
+// promise a prompt return).
+func (m *c03Machine) settleWithin(t *rapid.T, mustReturn *c03Call, soft time.Duration) bool {
+	bound := c03Hang
+	if soft > 0 {
+		bound = soft
+	}
+	timer := time.NewTimer(bound)
 	defer timer.Stop()
 	for {
 	drain:
@@ -502,12 +511,15 @@ func (m *c03Machine) settle(t *rapid.T, mustReturn *c03Call) {
 			}
 		}
 		if m.stable(mustReturn) {
-			return
+			return true
 		}
 		select {
 		case ev := <-m.getter.events:
 			m.onEvent(t, ev)
 		case <-timer.C:
+			if soft > 0 {
+				return false
+			}
 			var stuck []string
 			stuckHeights := map[uint64]bool{}
 			for _, c := range m.live {
@@ -924,7 +936,7 @@ func (m *c03Machine) pickHeight(t *rapid.T, label string) *c03Height {
 
 func (m *c03Machine) actCall(t *rapid.T) {
 	h := m.pickHeight(t, "call")
-	deadline := rapid.IntRange(0, 3).Draw(t, "call.deadlineCtx") == 0
+	deadline := rapid.IntRange(0, 3).Draw(t, "call.deadlineCtx") == 3
 	o := c03GenOutcome(t, "call.outcome")
 	m.logf("call h%d(%s) deadlineCtx=%v outcome=%s", h.height, h.kind, deadline, o)
 	if h.kind != "normal" {
@@ -1025,7 +1037,11 @@ func (m *c03Machine) actConcurrent(t *rapid.T) {
 					m.label("has-cancel")
 					m.label("cancel-while-waiting-for-session")
 					c.cancel()
-					m.settle(t, c)
+					// the real code returns at once; the property does not promise it, so a
+					// call that keeps waiting is only counted (it must still return in the end)
+					if !m.settleWithin(t, c, 2*time.Second) {
+						m.counted["cancelled_waiter_kept_waiting"]++
+					}
 					break
 				}
 			}
